@@ -399,12 +399,19 @@ def search(con, fn, n, seed, want_fail=True):
     tried = accepted = 0
     mismatch = None
     oracle_errors = 0
+    gen_errors = 0
     distinct = set()
     tries_cap = n * 400
     while accepted < n and tried < tries_cap:
         tried += 1
         if gen is not None:
-            argdescs = gen(rng)
+            try:
+                argdescs = gen(rng)
+            except Exception:
+                # generators call the real constructors; on a changed tree they may
+                # refuse: that sample is skipped (the constructors have contracts of their own)
+                gen_errors += 1
+                continue
         else:
             argdescs = dict((nm, sample_kind(rng, con.params[nm])) for nm in names)
         res = run_case(con, fn, argdescs)
@@ -422,7 +429,7 @@ def search(con, fn, n, seed, want_fail=True):
             if want_fail:
                 break
     return {'tried': tried, 'accepted': accepted, 'distinct': len(distinct),
-            'oracle_errors': oracle_errors, 'mismatch': mismatch}
+            'oracle_errors': oracle_errors, 'gen_errors': gen_errors, 'mismatch': mismatch}
 
 
 def main(argv):
